@@ -14,8 +14,10 @@ from pathlib import Path
 VERIF = Path(__file__).resolve().parent.parent
 REPO = Path(os.environ.get("VERIF_REPO", "/repo"))
 SPEC = VERIF / "spec"
-EVIDENCE = VERIF / "evidence"
-REPLAYS = VERIF / "replays"
+# the registered commands never set these two; tools/try_mutant_wt.sh does, so that a run against a
+# seeded change in a scratch worktree leaves the committed evidence and replays alone
+EVIDENCE = Path(os.environ.get("VERIF_EVIDENCE_DIR") or VERIF / "evidence")
+REPLAYS = Path(os.environ.get("VERIF_REPLAYS_DIR") or VERIF / "replays")
 PY = "/venv/bin/python"
 GUARD = "THAILINT_VERIF"
 
